@@ -5,7 +5,7 @@ From Coquelicot Require Import Coquelicot.
 From Interval Require Import Tactic.
 Require Import PP.Expr PP.RealOps PP.PolyFacts PP.ExpTail PP.Gen.Kernels PP.Proofs.QuarticForm.
 From Flocq Require Import Core BinarySingleNaN.
-Require Import PP.FloatModel PP.FloatOps PP.FloatFacts PP.ErrorBound PP.SafeDec PP.Proofs.QuarticFloat PP.Proofs.QuarticClosedFloat.
+Require Import PP.FloatModel PP.FloatOps PP.FloatFacts PP.ErrorBound PP.SafeDec PP.Proofs.QuarticFloat PP.Proofs.QuarticClosedFloat PP.Proofs.RecipFloat.
 Import ListNotations.
 Local Open Scope R_scope.
 
@@ -153,3 +153,12 @@ Example C10_closed_hypotheses_hold :
               of_bits 4594314991293244563] in
   flt (of_bits 13833752011390226268) xh && flt xh (of_bits 4610425010531724165) = false /\ safe env e_closed.
 Proof. cbv zeta. split; [vm_compute; reflexivity|apply safe1_sound; vm_compute; reflexivity]. Qed.
+
+(* one of the three steps from (x^, r^, E^) to (x^, 1/x^, e^x^): the reciprocal is ONE correctly rounded division, so r^ is within
+   2^-53 |1/x^| of 1/x^ for every finite x^ with 1 <= |x^| <= 2^1021 (the closed-form branch has |x^| >= 1.71; the logarithm of a
+   positive finite double is below 745 in magnitude).  The other two - the accuracy of exp_f and of ln_f - are assumptions on the
+   platform's libm. *)
+Theorem C10_recip_accuracy : forall xh : F, is_finite xh = true -> 1 <= Rabs (B2R xh) <= bpow radix2 1021 ->
+  let rh := fdiv (of_bits 4607182418800017408) xh in
+  is_finite rh = true /\ Rabs (B2R rh - / B2R xh) <= FloatFacts.u * Rabs (/ B2R xh).
+Proof. exact recip_accuracy. Qed.
